@@ -6,6 +6,7 @@ import (
 	"go/ast"
 	"go/token"
 	"go/types"
+	"sort"
 	"strings"
 
 	"golang.org/x/tools/go/packages"
@@ -64,6 +65,26 @@ func runC19(c *Ctx) {
 				name = rel + "." + declName(fd)
 			}
 			ok := name == "private/bufpkg/bufconnect.NewAuthorizationInterceptorProvider"
+			if !ok && fd != nil && rel == "private/bufpkg/bufconnect" && !fd.Name.IsExported() {
+				// an unexported helper of the interceptor provider: every caller is the provider (or another such helper)
+				if root := p.Func("private/bufpkg/bufconnect", "NewAuthorizationInterceptorProvider"); root != nil && root.Obj != nil {
+					inReach := map[*ssa.Function]bool{}
+					for _, f := range reachSSA(p.SSAFunc(root.Obj), 2) {
+						inReach[f] = true
+					}
+					if fo, isFn := info.Defs[fd.Name].(*types.Func); isFn {
+						if hf := p.SSAFunc(fo); hf != nil && inReach[hf] {
+							all := true
+							for _, cs := range p.callersIndex()[hf] {
+								if !inReach[cs.Instr.Parent()] {
+									all = false
+								}
+							}
+							ok = all
+						}
+					}
+				}
+			}
 			c.Ob("HEADER-WRITER", name+"/const", id.Pos(), ok, false, "reference to bufconnect.AuthenticationHeader in %s", name)
 		}
 		for _, f := range pk.Syntax {
@@ -449,30 +470,73 @@ func runC19(c *Ctx) {
 
 	// (6) netrc
 	if fr := p.Func("private/pkg/netrc", "GetMachineForNameAndFilePath"); fr != nil {
-		info := fr.Info()
-		nameObj := info.Defs[fr.Decl.Type.Params.List[0].Names[0]]
+		// on SSA, over the function and the package helpers it calls: the library lookups are Machine(<the name that
+		// was asked for>) and Machine("default"), in that order, and nothing else
 		var args []string
 		okArgs := true
-		ast.Inspect(fr.Decl.Body, func(n ast.Node) bool {
-			call, isCall := n.(*ast.CallExpr)
-			if !isCall {
+		root := p.SSAFunc(fr.Obj)
+		var fromRootName func(v ssa.Value, depth int) bool
+		fromRootName = func(v ssa.Value, depth int) bool {
+			v = stripConv(v)
+			prm, ok := v.(*ssa.Parameter)
+			if !ok {
+				return false
+			}
+			if prm.Parent() == root {
+				return len(root.Params) > 0 && prm == root.Params[0]
+			}
+			if depth == 0 {
+				return false
+			}
+			fn := prm.Parent()
+			callers := p.callersIndex()[fn]
+			if len(callers) == 0 {
+				return false
+			}
+			for i, q := range fn.Params {
+				if q != prm {
+					continue
+				}
+				for _, cs := range callers {
+					if i >= len(cs.Call.Args) || !fromRootName(cs.Call.Args[i], depth-1) {
+						return false
+					}
+				}
 				return true
 			}
-			sel, isSel := call.Fun.(*ast.SelectorExpr)
-			if !isSel || sel.Sel.Name != "Machine" || len(call.Args) != 1 {
-				return true
+			return false
+		}
+		var nameCall, defaultCall ssa.Instruction
+		if root != nil {
+			for _, f := range reachSSA(root, 2) {
+				if f.Pkg != root.Pkg {
+					continue
+				}
+				for _, call := range callsIn(f) {
+					fn := staticCalleeObj(call.Call)
+					if fn == nil || fn.Name() != "Machine" || len(call.Call.Args) != 2 {
+						continue
+					}
+					arg := call.Call.Args[1]
+					switch {
+					case fromRootName(arg, 2):
+						args = append(args, "name")
+						nameCall = call.Instr
+					case isConstString(arg, "default"):
+						args = append(args, "default")
+						defaultCall = call.Instr
+					default:
+						okArgs = false
+						args = append(args, arg.String())
+					}
+				}
 			}
-			if identObj(info, call.Args[0]) == nameObj {
-				args = append(args, "name")
-			} else if s, isLit := stringLit(info, call.Args[0]); isLit && s == "default" {
-				args = append(args, "default")
-			} else {
-				okArgs = false
-				args = append(args, exprString(call.Args[0]))
-			}
-			return true
-		})
-		ok := okArgs && len(args) == 2 && args[0] == "name" && args[1] == "default"
+		}
+		sort.Strings(args)
+		ok := okArgs && len(args) == 2 && args[0] == "default" && args[1] == "name"
+		if ok && nameCall.Parent() == defaultCall.Parent() && !instrDominates(nameCall, defaultCall) {
+			ok = false
+		}
 		c.Ob("NETRC-LOOKUP", "netrc.GetMachineForNameAndFilePath", fr.Decl.Pos(), ok, true, "machine lookups in order: %v (want the exact name, then \"default\")", args)
 	} else {
 		c.Fail("NETRC-LOOKUP", "netrc.GetMachineForNameAndFilePath", token.NoPos, "not found")
